@@ -45,6 +45,46 @@ public:
   ASTContext &Ctx;
   SourceManager &SM;
   std::set<const RecordDecl *> Records;
+  // unique spelling of locals within one function: a local re-declared in an inner scope
+  // (shadowing) or a second local of the same name in a sibling scope gets `name~2`, `name~3`...
+  std::map<const VarDecl *, std::string> LocalNames;
+
+  std::string varName(const ValueDecl *D) {
+    if (const auto *VD = dyn_cast<VarDecl>(D)) {
+      auto It = LocalNames.find(VD);
+      if (It != LocalNames.end())
+        return It->second;
+    }
+    return D->getNameAsString();
+  }
+
+  void collectLocals(const Stmt *S, std::vector<const VarDecl *> &Out) {
+    if (!S)
+      return;
+    if (const auto *DS = dyn_cast<DeclStmt>(S))
+      for (const Decl *D : DS->decls())
+        if (const auto *VD = dyn_cast<VarDecl>(D))
+          Out.push_back(VD);
+    for (const Stmt *C : S->children())
+      collectLocals(C, Out);
+  }
+
+  void nameLocals(const FunctionDecl *FD) {
+    LocalNames.clear();
+    std::vector<const VarDecl *> Ls;
+    collectLocals(FD->getBody(), Ls);
+    std::map<std::string, int> Count;
+    for (const ParmVarDecl *P : FD->parameters())
+      Count[P->getNameAsString()] = 1;
+    for (const VarDecl *VD : Ls) {
+      std::string N = VD->getNameAsString();
+      if (N.rfind("__ptr", 0) == 0)
+        continue;
+      int C = ++Count[N];
+      if (C > 1)
+        LocalNames[VD] = N + "~" + std::to_string(C);
+    }
+  }
 
   std::string locStr(SourceLocation L) {
     if (L.isInvalid())
@@ -243,7 +283,7 @@ public:
     }
     if (const auto *DR = dyn_cast<DeclRefExpr>(E)) {
       const ValueDecl *D = DR->getDecl();
-      json::Object O{{"k", "var"}, {"name", D->getNameAsString()}};
+      json::Object O{{"k", "var"}, {"name", varName(D)}};
       if (const auto *VD = dyn_cast<VarDecl>(D)) {
         if (isa<ParmVarDecl>(VD))
           O["vk"] = "param";
@@ -445,7 +485,7 @@ public:
             continue;
           }
           json::Object O{{"ev", "decl"},
-                         {"name", VD->getNameAsString()},
+                         {"name", varName(VD)},
                          {"type", typeStr(VD->getType())},
                          {"loc", locStr(VD->getLocation())}};
           bool P;
@@ -575,6 +615,7 @@ public:
     }
     F["params"] = std::move(Ps);
 
+    nameLocals(FD);
     CFG::BuildOptions BO;
     BO.setAllAlwaysAdd();
     BO.PruneTriviallyFalseEdges = false; // keep `while (1)` exits etc. uniform
